@@ -42,6 +42,11 @@ func main() {
 		"(3) token strings at range boundaries: ParseString round trip and Less on all pairs, and against hashed tokens. "+
 		"(4) partition keys of 1..3 components over 20 (CQL type, value) atoms, identity and permuted bind-marker positions, through "+
 		"createRoutingKey, Query.GetRoutingKey and Batch.GetRoutingKey (routing-key info seeded in the session cache), and the Murmur3 token of the result. "+
+		"(4c) GO REPRESENTATIONS: for the key-column types int, smallint, tinyint, bigint, varint, text, varchar, ascii, blob, uuid, timeuuid, timestamp, boolean, inet, date and 2..9 values each, "+
+		"the value bound in EVERY Go representation gocql.Marshal documents for the type (decimal / uuid / address / date strings, []byte and [16]byte, every Go integer type that holds the value, big.Int, "+
+		"net.IP of length 4 and 16, time.Time in two locations, int64, named types, pointers to these): every single-column key, every two-column key over one binding per distinct (CQL type, Go type) "+
+		"(thorough: all bindings x those, both orders), every three-column key with a binding at each position and every pair of six fillers at the others; both bind layouts, the three entry points; "+
+		"the reference key is built from the column's ENCODED value (refcql/value for varint), so it does not depend on the Go representation. "+
 		"(4b) SEQUENCES on one object: for every statement shape (quick: every single key-column type, every pair of types, 7 triples; thorough: every list of 1..3 of the 7 types; "+
 		"both bind layouts; three value sets K0..K2 each) every sequence of up to %s operations on ONE Query from {GetRoutingKey, Bind(K0|K1|K2), RoutingKey(E0|E1|nil), "+
 		"WithContext copy, Release + Session.Query again} and on ONE Batch from {GetRoutingKey, Query(K0|K1|K2) appended, Entries[0] replaced by K0|K1|K2, Entries truncated}, followed by a final GetRoutingKey: "+
@@ -52,7 +57,8 @@ func main() {
 		"empty partition keys are outside the property (Cassandra rejects them; its partitioners short-cut them to the MINIMUM token): for the empty string only the raw hash is compared",
 		"the single Murmur3 hash value Long.MIN_VALUE that Cassandra remaps to Long.MAX_VALUE is not reachable by enumeration",
 		"Query.GetRoutingKey is driven with routing-key info seeded into Session.routingKeyInfoCache (no scripted node here): the prepare/metadata derivation of that info is not covered by this check",
-		"encodings of the component values (int, bigint, text, blob, uuid, timestamp, boolean) are written by hand from the CQL spec",
+		"encodings of the component values (int, smallint, tinyint, bigint, text, blob, uuid, timestamp, boolean, inet = 4/16 address bytes, date = days since epoch + 2^31) are written by hand from the CQL spec; varint by refcql/value.EncVarint",
+		"(4c) only Go representations listed in gocql.Marshal's conversion table (plus named types of the same kind and pointers, 'if value is a pointer, the pointed-to value is marshaled') are bound; unsigned Go values only within the signed range of the column; varint strings only within int64 (gocql parses them as 64-bit); IPv4-mapped IPv6 strings are not used",
 		"sequences (4b): Query.RoutingKey(nil) means 'no explicit key' (GetRoutingKey's documentation: 'if a routing key has not been explicitly set'); an explicit non-nil key stays in force across Bind and WithContext and is what GetRoutingKey returns (documented contract of Query.RoutingKey); a batch without entries has no routing key")
 
 	suiteHash(sp)
@@ -350,15 +356,17 @@ func suiteRoutingKeys() {
 	var keys, evals int64
 	nsamples := 0
 	perArity := map[int]int64{}
-	var rec func(sel []int)
-	checkKey := func(sel []int) {
+	// checkKey compares the routing key of one partition key (sel = its components in
+	// partition-key order). reps=true (suite 4c): the violation keys name the
+	// "cqltype<-Go type" binding of the first component whose bytes are wrong.
+	checkKey := func(sel []atom, reps bool) {
 		keys++
 		perArity[len(sel)]++
 		comps := make([][]byte, len(sel))
 		names := make([]string, len(sel))
 		for i, s := range sel {
-			comps[i] = at[s].enc
-			names[i] = at[s].name
+			comps[i] = s.enc
+			names[i] = s.name
 		}
 		want := refcass.RoutingKey(comps)
 		id := strings.Join(names, "|")
@@ -369,17 +377,17 @@ func suiteRoutingKeys() {
 			indexes := make([]int, len(sel))
 			types := make([]gocql.TypeInfo, len(sel))
 			for i, s := range sel {
-				types[i] = gocql.NewNativeType(4, at[s].typ, "")
+				types[i] = gocql.NewNativeType(4, s.typ, "")
 			}
 			if layout == 0 {
 				for i, s := range sel {
-					values = append(values, at[s].value)
+					values = append(values, s.value)
 					indexes[i] = i
 				}
 			} else {
 				values = append(values, "not-a-key")
 				for i := len(sel) - 1; i >= 0; i-- {
-					values = append(values, at[sel[i]].value)
+					values = append(values, sel[i].value)
 					indexes[i] = len(values) - 1
 				}
 				values = append(values, int64(77))
@@ -394,11 +402,19 @@ func suiteRoutingKeys() {
 				evals++
 				r.Case(cid+":"+via, err == nil)
 				if err != nil {
-					r.Violation("routing-key:"+via+":"+shape+":error", fmt.Sprintf("%s: %v", id, err), rp)
+					suffix := ""
+					if reps {
+						suffix = ":go-representation"
+					}
+					r.Violation("routing-key:"+via+":"+shape+":error"+suffix, fmt.Sprintf("%s: %v", id, err), rp)
 					return
 				}
 				if !bytes.Equal(got, want) {
-					r.Violation("routing-key:"+via+":"+shape+":bytes-differ", fmt.Sprintf("%s layout %d: got %x want %x", id, layout, trunc(got), trunc(want)), rp)
+					suffix := ""
+					if reps {
+						suffix = ":" + repOf[sel[firstWrongComponent(got, comps)].name]
+					}
+					r.Violation("routing-key:"+via+":"+shape+":bytes-differ"+suffix, fmt.Sprintf("%s layout %d: got %x want %x", id, layout, trunc(got), trunc(want)), rp)
 				}
 			}
 			guard("createRoutingKey", rp, func() {
@@ -430,27 +446,54 @@ func suiteRoutingKeys() {
 				got, err := sess.BatchRoutingKey(stmt, values)
 				report3("Batch.GetRoutingKey", got, err)
 			})
-			if nsamples < 4 && len(sel) == 3 && layout == 1 && sel[0]%7 == 1 && sel[1]%5 == 3 && sel[2]%6 == 2 {
+			if !reps && nsamples < 4 && len(sel) == 3 && layout == 1 && strings.HasPrefix(names[0], "int:-1") && strings.HasPrefix(names[1], "text:") && strings.HasPrefix(names[2], "blob:") {
 				nsamples++
 				r.Sample(map[string]interface{}{"partition_key": names, "bind_positions": indexes, "routing_key": hex.EncodeToString(trunc(want)), "token": strconv.FormatInt(refcass.Murmur3Token(want), 10)})
 			}
 		}
 	}
-	rec = func(sel []int) {
+	var rec func(sel []atom)
+	rec = func(sel []atom) {
 		if len(sel) >= 1 {
-			checkKey(sel)
+			checkKey(sel, false)
 		}
 		if len(sel) == 3 {
 			return
 		}
 		for i := range at {
-			rec(append(append([]int{}, sel...), i))
+			rec(append(append([]atom{}, sel...), at[i]))
 		}
 	}
 	rec(nil)
 	r.Extra("routing_keys", keys)
 	r.Extra("routing_keys_by_arity", perArity)
 	r.Extra("routing_key_evaluations", evals)
+
+	// ---- (4c) every Go representation of every key-column value
+	keys, evals = 0, 0
+	perArity = map[int]int64{}
+	suiteRoutingRepresentations(func(sel []atom) { checkKey(sel, true) })
+	r.Extra("representation_routing_keys", keys)
+	r.Extra("representation_routing_keys_by_arity", perArity)
+	r.Extra("representation_routing_key_evaluations", evals)
+}
+
+// firstWrongComponent walks got along the reference framing and returns the index of the
+// first component whose segment (single: the bytes; composite: length, bytes, 0) differs.
+func firstWrongComponent(got []byte, comps [][]byte) int {
+	if len(comps) == 1 {
+		return 0
+	}
+	off := 0
+	for i, c := range comps {
+		seg := refcass.RoutingKey([][]byte{c, nil})
+		seg = seg[:len(seg)-3] // the framed first component only
+		if off+len(seg) > len(got) || !bytes.Equal(got[off:off+len(seg)], seg) {
+			return i
+		}
+		off += len(seg)
+	}
+	return len(comps) - 1
 }
 
 func trunc(b []byte) []byte {
